@@ -1,10 +1,12 @@
 package h
 
 import (
+	"bytes"
 	"encoding/json"
 	"errors"
 	"fmt"
 	"math/big"
+	"os"
 	"runtime/debug"
 	"strings"
 	"testing"
@@ -23,13 +25,14 @@ import (
 // sequence the EVM would emit) is the tracer's input.
 
 type evAspect struct {
-	JP     int64     `json:"jp"` // 2 pre-tx, 4 pre-call, 8 post-call, 16 post-tx
-	ID     int       `json:"id"`
-	GasIn  uint64    `json:"gasIn"`
-	GasOut uint64    `json:"gasOut"`
-	Ret    []byte    `json:"ret,omitempty"`
-	Err    string    `json:"err,omitempty"`
-	Calls  []evFrame `json:"calls,omitempty"`
+	JP     int64           `json:"jp"` // 2 pre-tx, 4 pre-call, 8 post-call, 16 post-tx
+	ID     int             `json:"id"`
+	Addr   *common.Address `json:"addr,omitempty"` // hybrid streams: the real aspect address
+	GasIn  uint64          `json:"gasIn"`
+	GasOut uint64          `json:"gasOut"`
+	Ret    []byte          `json:"ret,omitempty"`
+	Err    string          `json:"err,omitempty"`
+	Calls  []evFrame       `json:"calls,omitempty"`
 }
 
 type evFrame struct {
@@ -60,7 +63,14 @@ type evTx struct {
 var c19Addrs = []common.Address{addrN(0xc1, 1), addrN(0xc1, 2), addrN(0xc1, 3), addrN(0xe1, 1),
 	common.BytesToAddress([]byte{2}), common.BytesToAddress([]byte{4}), common.BytesToAddress([]byte{0x64})}
 
-func c19IsPrecompile(i int) bool { return i >= 4 }
+func c19IsPrecompile(i int) bool { return cmpIsPre(i) }
+
+// cmpAddrs / cmpIsPre: the address table the comparison functions resolve frame
+// indices with (synthetic streams: c19Addrs; hybrid streams: built per case).
+var (
+	cmpAddrs = c19Addrs
+	cmpIsPre = func(i int) bool { return i >= 4 }
+)
 
 var c19Errs = []string{"", "", "", "execution reverted", "out of gas", "invalid opcode: INVALID", "boom"}
 
@@ -303,7 +313,11 @@ func cmpAspects(path string, want []evAspect, got []outAspect) string {
 	for i := range want {
 		w, g := &want[i], &got[i]
 		p := fmt.Sprintf("%s/jp[%d]", path, i)
-		if g.Aspect != addrN(0xa5, w.ID) || g.Type != jpNames[w.JP] {
+		wantAddr := addrN(0xa5, w.ID)
+		if w.Addr != nil {
+			wantAddr = *w.Addr
+		}
+		if g.Aspect != wantAddr || g.Type != jpNames[w.JP] {
 			return fmt.Sprintf("%s: emitted aspect %x (%s), expected aspect #%d (%s)", p, g.Aspect, g.Type, w.ID, jpNames[w.JP])
 		}
 		if uint64(g.Gas) != w.GasIn || uint64(g.GasUsed) != w.GasIn-w.GasOut {
@@ -338,8 +352,8 @@ func cmpFrame(p string, w *evFrame, g *outFrame, top bool) string {
 	if !top && uint64(g.Gas) != w.Gas {
 		return fmt.Sprintf("%s: emitted frame with gas %d, expected the frame with gas %d (wrong frame / wrong place)", p, g.Gas, w.Gas)
 	}
-	if g.Type != opTypeName(w.Type) || g.From != c19Addrs[w.From] {
-		return fmt.Sprintf("%s: type %s from %x, expected %s from %x", p, g.Type, g.From, opTypeName(w.Type), c19Addrs[w.From])
+	if g.Type != opTypeName(w.Type) || g.From != cmpAddrs[w.From] {
+		return fmt.Sprintf("%s: type %s from %x, expected %s from %x", p, g.Type, g.From, opTypeName(w.Type), cmpAddrs[w.From])
 	}
 	if !top && uint64(g.GasUsed) != w.GasUsed {
 		return fmt.Sprintf("%s: gasUsed %d, expected %d", p, g.GasUsed, w.GasUsed)
@@ -414,6 +428,7 @@ func flatExpect(f *evFrame, addr []int, includePre bool, out *[]flatWant) {
 }
 
 func checkC19(tx evTx, st *Stats) (viol *Violation) {
+	cmpAddrs, cmpIsPre = c19Addrs, func(i int) bool { return i >= 4 }
 	cfgJSON, _ := json.Marshal(tx.Cfg)
 	trAny, err := atracers.DefaultDirectory.New(tx.Tracer, &atracers.Context{BlockNumber: big.NewInt(scenBlockNumber), TxHash: txHash(0)}, cfgJSON)
 	if err != nil {
@@ -573,5 +588,15 @@ func checkC19(tx evTx, st *Stats) (viol *Violation) {
 	return nil
 }
 
-func TestC19(t *testing.T)       { runProp(t, "C19", genC19, checkC19) }
-func TestC19Replay(t *testing.T) { replayProp(t, "C19", checkC19) }
+func TestC19(t *testing.T) { runProp(t, "C19", genC19, checkC19) }
+
+// TestC19Replay dispatches on the case format: scenarios (hybrid stage) have a "fork".
+func TestC19Replay(t *testing.T) {
+	if *flagCase != "" {
+		if b, err := os.ReadFile(*flagCase); err == nil && bytes.Contains(b, []byte(`"fork"`)) && bytes.Contains(b, []byte(`"invs"`)) {
+			replayProp(t, "C19", checkC19Hybrid)
+			return
+		}
+	}
+	replayProp(t, "C19", checkC19)
+}
